@@ -145,6 +145,7 @@ def run_case(case):
     sv = [z3.Int('sec%d' % i) for i in range(nsec)]
     tv = [z3.Int('tpl%d' % i) for i in range(nlines)]
     hv = z3.Int('header')
+    nv = z3.Int('final_newline')
     paths = 0
     bad = None
 
@@ -159,11 +160,15 @@ def run_case(case):
             ctx.assume(z3.And(tv[i] >= 0, tv[i] < len(TEMPLATES)))
             tpl.append(SymInt(tv[i], 0, len(TEMPLATES) - 1).concretize())
         head = SymInt(hv, 0, 1).concretize()
+        ctx.assume(z3.And(nv >= 0, nv <= 1))
+        final_nl = SymInt(nv, 0, 1).concretize()
         text = '; header comment\n#define X\n' if head else ''
         for si, s in enumerate(seq):
             text += '[ %s ]\n' % s
             for li, t in enumerate(tpl):
                 text += TEMPLATES[(t + si) % len(TEMPLATES)].replace('x', 'x%d' % si)
+        if not final_nl:
+            text = text.rstrip('\n')            # the last line of the file has no line break
         return text, seq
     cover = []
     for ctx, res, exc in explore(run, max_paths=60000):
@@ -188,7 +193,7 @@ def run_case(case):
     records.append(rec)
     nontrivial.append('files%d' % nsec)
     s = z3.Solver(); s.set('timeout', 60000)
-    s.add(hv >= 0, hv <= 1, *[z3.And(v >= 0, v < 2) for v in sv], *[z3.And(v >= 0, v < len(TEMPLATES)) for v in tv])
+    s.add(hv >= 0, hv <= 1, nv >= 0, nv <= 1, *[z3.And(v >= 0, v < 2) for v in sv], *[z3.And(v >= 0, v < len(TEMPLATES)) for v in tv])
     s.add(z3.Not(z3.Or(*cover)))
     r = str(s.check())
     records.append({'name': 'explored paths exhaust the symbolic section-name / template choices', 'status': 'unsat' if r == 'unsat' else 'unknown', 'secs': 0})
